@@ -314,6 +314,8 @@ def main():
         ids = {}
         for (h, o, s) in src_chunks:
             ids.setdefault(h, len(ids) + 1)
+        if a.mode == "faults" and sc.get("inplace", True) and prior and len(prior) < len(source) and rnd.random() < 0.5:
+            prior = prior + rnd.randbytes(len(source) - len(prior) + rnd.choice([0, 1, 4096]))       # a device is never shorter than what is cloned onto it
         kind = rnd.choice(["regular", "blockdev"] if a.mode == "faults" else ["regular", "regular", "blockdev"]) if sc.get("inplace", True) and len(prior) >= len(source) and prior else "regular"
         if not sc.get("inplace", True) and not prior:
             kind = "new"
@@ -482,11 +484,15 @@ def main():
                     for tear in (0, 1, ln // 2, ln - 1):
                         if 0 <= tear < ln:
                             cases.append({"k": k, "mode": mode, "tear": tear, "last": k == W})
-            # always include the failures of the last write, sample the rest
-            lastc = [c for c in cases if c["last"] and c["mode"] == "eio" and c["tear"] == 0]
+            # always include an error return at the last write, at the first write (whole and torn: with an in-place update that is a re-ordering
+            # write with more to follow) and, torn, at a middle write; sample the rest
+            def pick_case(k, mode, tear):
+                return [c for c in cases if c["k"] == k and c["mode"] == mode and c["tear"] == tear][:1]
+            lastc = pick_case(W, "eio", 0) + (pick_case(1, "eio", 0) + pick_case(1, "eio", 1) + pick_case((W + 1) // 2, "eio", 1) if W > 1 else [])
+            lastc = [c for i, c in enumerate(lastc) if c not in lastc[:i]]
             rest = [c for c in cases if c not in lastc]
             rnd.shuffle(rest)
-            for fc in lastc + rest[: max(0, a.max_faults - len(lastc))]:
+            for fc in lastc + rest[: max(2, a.max_faults - len(lastc))]:
                 if os.path.exists(out):
                     os.unlink(out)
                 if prior and kind != "new":
